@@ -45,6 +45,13 @@ Contract(api) ==
     [] api = "h2c.ExpandMessageXOF" -> <<<<<<1, 65535>>, Any, Any>>, "error">>
     [] api \in {"h2c.Edwards25519_XMD_SHA512_ELL2_RO", "h2c.Ristretto255_XOF_R255MAP_RO"} -> <<<<Any, Any>>, "error">>
     [] api = "merlin.Transcript" -> <<<<Any, Any, Any>>, "error">>
+    \* entropy sources that deliver k bytes and then fail (the argument is what the reader delivers): an error unless the
+    \* source yields what the operation needs; a result made from a short read is never returned
+    [] api \in {"entropy.ed25519.GenerateKey", "entropy.x25519.GenerateKey", "entropy.sr25519.GenerateMiniSecretKey",
+                "entropy.merlin.Finalize", "entropy.ed25519.Sign.AddedRandomness", "entropy.sr25519.Sign",
+                "entropy.ecvrf.ProveWithAddedRandomness", "entropy.ecvrf.ProveWithAddedRandomness_v10"} -> <<<<<<32, 1000000>>>>, "error">>
+    [] api = "entropy.scalar.SetRandom" -> <<<<<<64, 1000000>>>>, "error">>
+    [] api \in {"entropy.sr25519.GenerateSecretKey", "entropy.sr25519.GenerateKeyPair"} -> <<<<<<96, 1000000>>>>, "error">>
     [] OTHER -> <<<<>>, "unknown">>
 
 InRange(n, rg) == n >= rg[1] /\ n <= rg[2]
